@@ -12,6 +12,7 @@ import (
 	"fmt"
 	"os"
 	"runtime/debug"
+	"runtime/pprof"
 	"sort"
 	"strings"
 	"time"
@@ -101,6 +102,13 @@ func runChunk(c *vh.Ctx, spec string) {
 	fmt.Sscan(p[1], &from)
 	fmt.Sscan(p[2], &to)
 	debugOut := os.Getenv("WELLFORMED_DEBUG") != ""
+	if pf := os.Getenv("WELLFORMED_CPUPROFILE"); pf != "" {
+		f, err := os.Create(pf)
+		if err == nil {
+			_ = pprof.StartCPUProfile(f)
+			defer pprof.StopCPUProfile()
+		}
+	}
 	for i := from; i < to; i++ {
 		if !c.Mine(i) {
 			continue
